@@ -2,6 +2,8 @@
 //!   MT|RT|UT <catalogue-type> ...            typed API through a catalogue type (see wirelib::run)
 //!   MP <bo> <prefix-count> <value>            dynamic API: push_old_param of the Param tree built from the value
 //!   RP <bo> <prefix-count> <value>            marshal through Param, read back with get_param, print value
+//!   MPR|RPR, MPX|RPX                          the same with the tree built from the borrowing variants (ArrayRef, StructRef,
+//!                                             DictRef, StringRef, ObjectPathRef, SignatureRef) / alternating owned and borrowing
 //!   VR <bo> <offset> <sig> <hex>              validate_raw::validate_marshalled for every complete type of <sig> in turn
 //!   UP <bo> <offset> <nfds> <sig> <hex>       unmarshal_with_sig (dynamic decoder) for every complete type of <sig>
 //!   CAT                                        print the catalogue
@@ -23,12 +25,19 @@ fn eval(line: &str) -> String {
         "CAT" => rbverif::catalogue::CATALOGUE.join(" "),
         "MT" | "RT" | "UT" => {
             let ty = a.next();
-            rbverif::catalogue::dispatch(ty, op, &mut a)
+            let out = rbverif::catalogue::dispatch(ty, op, &mut a);
+            match out.strip_prefix("BODY ") {
+                Some(rest) => read_back_dynamic(rest),
+                None => out,
+            }
         }
-        "MP" | "RP" => {
+        "MP" | "RP" | "MPR" | "RPR" | "MPX" | "RPX" => {
+            // ..R: the tree is built from the borrowing variants (ArrayRef, StructRef, DictRef, StringRef, ..), ..X: alternating
+            let flavour = Flavour::of_op(op);
+            let op = &op[..2];
             let byteorder = rbverif::wirelib::bo(&mut a);
             let prefix = a.num();
-            let p = param_from(&mut a);
+            let p = param_from_flavour(&mut a, flavour);
             let mut ordered = Vec::new();
             param_tok(&p, &mut ordered, false);
             let mut msg = rustbus::message_builder::MarshalledMessage::new();
@@ -117,6 +126,47 @@ fn eval(line: &str) -> String {
         }
         _ => "?".to_string(),
     }
+}
+
+/// RT of a marshal-only type (wirelib::run_m): the body written through the typed API is rebuilt from its parts and read
+/// with the dynamic API: prefix bytes, the value through get_param, the trailer. Same output fields as RT/RP.
+fn read_back_dynamic(rest: &str) -> String {
+    let mut a = Args::new(rest);
+    let byteorder = rbverif::wirelib::bo(&mut a);
+    let prefix = a.num() as usize;
+    let nfds = a.num() as usize;
+    let sig = String::from_utf8(unhex(a.next())).unwrap();
+    let buf = unhex(a.next());
+    let mut orig = Vec::new();
+    while a.rest_len() > 0 {
+        orig.push(a.next().to_string());
+    }
+    let fds: Vec<UnixFd> = (0..nfds).map(|_| UnixFd::new(nix::unistd::dup(2).unwrap())).collect();
+    let body = MarshalledMessageBody::from_parts(buf, 0, fds, sig, byteorder);
+    let valid = body.validate().is_ok();
+    let mut parser = body.parser();
+    for _ in 0..prefix {
+        if parser.get::<u8>().is_err() {
+            return "prefixerr".to_string();
+        }
+    }
+    let got = parser.get_param();
+    let mut out = Vec::new();
+    let res = match &got {
+        Ok(x) => {
+            param_tok(x, &mut out, true);
+            "ok"
+        }
+        Err(_) => "err",
+    };
+    drop(got);
+    let trailer = match parser.get::<u8>() {
+        Ok(0xA5) => "trailer=ok",
+        Ok(_) => "trailer=wrong",
+        Err(_) => "trailer=err",
+    };
+    // descriptors: the typed side prints handles (0 = live), the dynamic side the same
+    format!("{} validate={} {} left={} same={} val={}", res, valid, trailer, parser.sigs_left(), orig == out, out.join(" "))
 }
 
 fn main() {
